@@ -204,19 +204,33 @@ package server
 //@ spec bookkeepingUntouched() bool = preservedMaps("string;[]string") && preservedMaps("string;model.ExtraInfo") && preservedMaps("string;map[string]string") && preservedMaps("string;string") && preservedArrays(string)
 //@ func (*MetaCDC).checkDuplicateCollection
 //@   props C19 C10
-//@   requires e != nil
+//@   requires e != nil && e.collectionNames.data != nil && e.collectionNames.excludeData != nil && e.collectionNames.extraInfos != nil && e.collectionNames.nameMapping != nil
 // every full name involved has exactly one '.', (validated requests only; the recorded names came through here)
 //@   requires forall i int :: 0 <= i && i < len(newCollectionNames) ==> oneDot(newCollectionNames[i])
 //@   requires forall k string :: k in mapCollectionNames ==> oneDot(k)
 //@   requires forall i int :: 0 <= i && i < len(e.collectionNames.data[uKey]) ==> oneDot(e.collectionNames.data[uKey][i])
 //@   ensures [a-rejected-request-leaves-the-bookkeeping-untouched] result1 != nil ==> bookkeepingUntouched()
+// what an accepted request records about the user-role flag and the name mapping of its target (C10)
+//@   requires [each-target-has-its-own-name-mapping-table] forall k1 string, k2 string :: {mget(e.collectionNames.nameMapping, k1), mget(e.collectionNames.nameMapping, k2)} k1 in e.collectionNames.nameMapping && k2 in e.collectionNames.nameMapping && k1 != k2 ==> e.collectionNames.nameMapping[k1] != e.collectionNames.nameMapping[k2]
+//@   ensures [the-user-role-flag-is-taken-only-if-it-was-free] result1 == nil ==> !(old(e.collectionNames.extraInfos[uKey].EnableUserRole) && extraInfo.EnableUserRole) && e.collectionNames.extraInfos[uKey].EnableUserRole == (old(e.collectionNames.extraInfos[uKey].EnableUserRole) || extraInfo.EnableUserRole)
+//@   ensures [user-role-flags-of-other-targets-are-untouched] forall k string :: {mget(e.collectionNames.extraInfos, k)} k != uKey ==> e.collectionNames.extraInfos[k] == old(e.collectionNames.extraInfos[k])
+//@   ensures [the-accepted-name-mapping-is-recorded-for-the-target] result1 == nil ==> (forall s string :: {mget(mget(e.collectionNames.nameMapping, uKey), s)} e.collectionNames.nameMapping[uKey][s] == ite(s in mapCollectionNames, mapCollectionNames[s], old(e.collectionNames.nameMapping[uKey][s])))
+//@   ensures [name-mappings-of-other-targets-are-untouched] forall k string, s string :: {mget(mget(e.collectionNames.nameMapping, k), s)} k != uKey ==> e.collectionNames.nameMapping[k][s] == old(e.collectionNames.nameMapping[k][s])
 //@   loop 1 invariant bookkeepingUntouched() && (duplicateCollections == nil || freshRef2(duplicateCollections))
 //@   loop 2 invariant bookkeepingUntouched() && (duplicateCollections == nil || freshRef2(duplicateCollections))
 //@   loop 3 invariant bookkeepingUntouched()
 //@   loop 4 invariant bookkeepingUntouched()
 //@   loop 5 invariant bookkeepingUntouched() && (excludeCollectionNames == nil || freshRef2(excludeCollectionNames))
 //@   loop 6 invariant bookkeepingUntouched() && (excludeCollectionNames == nil || freshRef2(excludeCollectionNames))
-//@   loop 7 invariant true
+//@   requires [the-requests-mapping-is-not-a-recorded-table] forall k string :: {mget(e.collectionNames.nameMapping, k)} e.collectionNames.nameMapping[k] != mapCollectionNames
+//@   loop 7 invariant nameMappings != nil && nameMappings == e.collectionNames.nameMapping[uKey] && nameMappings != mapCollectionNames
+//@   loop 7 invariant forall k string :: {mget(e.collectionNames.nameMapping, k)} e.collectionNames.nameMapping[k] != mapCollectionNames
+//@   ensures [each-target-still-has-its-own-name-mapping-table] forall k1 string, k2 string :: {mget(e.collectionNames.nameMapping, k1), mget(e.collectionNames.nameMapping, k2)} k1 in e.collectionNames.nameMapping && k2 in e.collectionNames.nameMapping && k1 != k2 ==> e.collectionNames.nameMapping[k1] != e.collectionNames.nameMapping[k2]
+//@   loop 7 invariant forall k1 string, k2 string :: {mget(e.collectionNames.nameMapping, k1), mget(e.collectionNames.nameMapping, k2)} k1 in e.collectionNames.nameMapping && k2 in e.collectionNames.nameMapping && k1 != k2 ==> e.collectionNames.nameMapping[k1] != e.collectionNames.nameMapping[k2]
+//@   ensures [the-requests-mapping-is-still-not-a-recorded-table] forall k string :: {mget(e.collectionNames.nameMapping, k)} e.collectionNames.nameMapping[k] != mapCollectionNames
+//@   loop 7 invariant forall o ref, s string :: {mget(as(o, "map[string]string"), s)} {mhas(as(o, "map[string]string"), s)} old(allocated(o)) && as(o, "map[string]string") != nameMappings ==> mhas(as(o, "map[string]string"), s) == old(mhas(as(o, "map[string]string"), s)) && mget(as(o, "map[string]string"), s) == old(mget(as(o, "map[string]string"), s))
+//@   loop 7 invariant forall k string, s string :: {mget(mget(e.collectionNames.nameMapping, k), s)} k != uKey ==> e.collectionNames.nameMapping[k][s] == old(e.collectionNames.nameMapping[k][s])
+//@   loop 7 invariant forall s string :: {mget(nameMappings, s)} nameMappings[s] == ite(visited(s), mapCollectionNames[s], old(e.collectionNames.nameMapping[uKey][s]))
 
 // ---- C05: checkpoints become seek positions on (re)start -----------------------------------------------------------
 // composeTS(p, l): tsoutil.ComposeTS, the hybrid timestamp of physical time p (ms) and logical counter l
@@ -326,3 +340,84 @@ package server
 //@   modifies nothing
 //@   panics never
 //@   rangeloop 1 invariant forall j int :: {taskInfo.ExcludeCollections[j]} 0 <= j && j <= rangeindex ==> !(fullDB(taskInfo.ExcludeCollections[j]) == dbName && fullColl(taskInfo.ExcludeCollections[j]) == collectionName)
+
+// ---- C10 / C19: a failed create gives back what the duplicate detection recorded for it --------------------------------
+//@ spec wfBookkeeping(e *MetaCDC) bool = e != nil && e.collectionNames.data != nil && e.collectionNames.excludeData != nil && e.collectionNames.extraInfos != nil && e.collectionNames.nameMapping != nil
+// the revert closure of Create (runs when the request fails after the duplicate detection accepted it)
+//@ func (*MetaCDC).Create$2
+//@   inline
+//@   loop 1 invariant forall o ref, s string :: {mget(as(o, "map[string]string"), s)} {mhas(as(o, "map[string]string"), s)} as(o, "map[string]string") != local(e).collectionNames.nameMapping[local(uKey)] ==> mhas(as(o, "map[string]string"), s) == before(mhas(as(o, "map[string]string"), s)) && mget(as(o, "map[string]string"), s) == before(mget(as(o, "map[string]string"), s))
+//@   loop 1 invariant forall s string :: {mget(mget(local(e).collectionNames.nameMapping, local(uKey)), s)} local(e).collectionNames.nameMapping[local(uKey)][s] == ite(visited(s), "", before(local(e).collectionNames.nameMapping[local(uKey)][s]))
+//@   loop 1 invariant forall k string, s string :: {mget(mget(local(e).collectionNames.nameMapping, k), s)} local(e).collectionNames.nameMapping[k][s] == old(local(e).collectionNames.nameMapping[k][s]) || local(e).collectionNames.nameMapping[k][s] == "" || (k == local(uKey) && (s in local(mapCollectionNames)) && !visited(s))
+
+// the name mapping of a request as one table: a new table, nothing that existed before is written
+//@ func GetCollectionMappingFromReq
+//@   props C10 C19
+//@   requires req != nil
+//@   ensures [the-requests-name-mapping-is-a-new-table] result != nil && freshRef(result)
+//@   modifies fresh(map[string]string), fresh(model.NameMapping.*)
+//@   loop 1 invariant preservedMaps("string;string") && preservedStruct(model.NameMapping) && mapCollectionNames != nil && freshRef(mapCollectionNames)
+//@   loop 2 invariant preservedMaps("string;string") && preservedStruct(model.NameMapping) && mapCollectionNames != nil && freshRef(mapCollectionNames)
+
+//@ func GetCollectionMappingFromTaskInfo
+//@   props C10 C19
+//@   requires info != nil
+//@   ensures [the-tasks-name-mapping-is-a-new-table] result != nil && freshRef(result)
+//@   modifies fresh(map[string]string), fresh(model.NameMapping.*)
+//@   loop 1 invariant preservedMaps("string;string") && preservedStruct(model.NameMapping) && mapCollectionNames != nil && freshRef(mapCollectionNames)
+//@   loop 2 invariant preservedMaps("string;string") && preservedStruct(model.NameMapping) && mapCollectionNames != nil && freshRef(mapCollectionNames)
+
+// deleting a task gives back what the task held in the duplicate detection: its user-role flag and its name mappings
+// deleteCalls counts the calls; deletedKey / deletedFlagged: the target and the user-role flag of the task record
+// the last successful delete removed
+//@ ghost var deleteCalls int
+//@ ghost var deletedKey string
+//@ ghost var deletedFlagged bool
+//@ func (*MetaCDC).delete
+//@   props C10 C19
+//@   requires wfBookkeeping(e) && e.metaStoreFactory != nil
+//@   requires [each-target-has-its-own-name-mapping-table] forall k1 string, k2 string :: {mget(e.collectionNames.nameMapping, k1), mget(e.collectionNames.nameMapping, k2)} k1 in e.collectionNames.nameMapping && k2 in e.collectionNames.nameMapping && k1 != k2 ==> e.collectionNames.nameMapping[k1] != e.collectionNames.nameMapping[k2]
+//@   opaque getTaskUniqueIDFromInfo
+//@   private MetaCDC.collectionNames maps(string;model.ExtraInfo) maps(string;map[string]string) maps(string;string) meta.TaskInfo.ExtraInfo deleteCalls deletedKey deletedFlagged
+//@   ghostset return deleteCalls := deleteCalls + 1
+//@   ghostset return? deletedKey := uKey
+//@   ghostset return? deletedFlagged := info.ExtraInfo.EnableUserRole
+//@   ensures deleteCalls == old(deleteCalls) + 1
+//@   ensures [a-failed-delete-leaves-the-user-role-flags-and-name-mappings-as-they-were] result != nil ==> (forall k string :: {mget(e.collectionNames.extraInfos, k)} e.collectionNames.extraInfos[k] == old(e.collectionNames.extraInfos[k])) && (forall k string, s string :: {mget(mget(e.collectionNames.nameMapping, k), s)} e.collectionNames.nameMapping[k][s] == old(e.collectionNames.nameMapping[k][s]))
+//@   ensures [the-user-role-flag-of-a-deleted-task-is-free-again] result == nil && deletedFlagged ==> !e.collectionNames.extraInfos[deletedKey].EnableUserRole
+//@   ensures [user-role-flags-the-deleted-task-did-not-hold-are-untouched] result == nil ==> (forall k string :: {mget(e.collectionNames.extraInfos, k)} (k != deletedKey || !deletedFlagged) ==> e.collectionNames.extraInfos[k] == old(e.collectionNames.extraInfos[k]))
+//@   ensures [a-successful-delete-writes-no-table-but-the-one-of-the-deleted-tasks-target] result == nil ==> (forall o ref, s string :: {mget(as(o, "map[string]string"), s)} {mhas(as(o, "map[string]string"), s)} old(allocated(o)) && as(o, "map[string]string") != e.collectionNames.nameMapping[deletedKey] ==> mhas(as(o, "map[string]string"), s) == old(mhas(as(o, "map[string]string"), s)) && mget(as(o, "map[string]string"), s) == old(mget(as(o, "map[string]string"), s)))
+//@   ensures [a-failed-delete-writes-no-table] result != nil ==> (forall o ref, s string :: {mget(as(o, "map[string]string"), s)} {mhas(as(o, "map[string]string"), s)} old(allocated(o)) ==> mhas(as(o, "map[string]string"), s) == old(mhas(as(o, "map[string]string"), s)) && mget(as(o, "map[string]string"), s) == old(mget(as(o, "map[string]string"), s)))
+//@   ensures [the-tables-stay-where-they-are] forall k string :: {mget(e.collectionNames.nameMapping, k)} e.collectionNames.nameMapping[k] == old(e.collectionNames.nameMapping[k]) && (k in e.collectionNames.nameMapping) == old(k in e.collectionNames.nameMapping)
+//@   ensures [deleting-a-task-records-no-name-mapping] forall k string, s string :: {mget(mget(e.collectionNames.nameMapping, k), s)} e.collectionNames.nameMapping[k][s] == old(e.collectionNames.nameMapping[k][s]) || e.collectionNames.nameMapping[k][s] == ""
+//@   loop 1 invariant e.collectionNames == old(e.collectionNames) && info != nil
+//@   loop 1 invariant forall o ref, s string :: {mget(as(o, "map[string]string"), s)} {mhas(as(o, "map[string]string"), s)} old(allocated(o)) && as(o, "map[string]string") != e.collectionNames.nameMapping[uKey] ==> mhas(as(o, "map[string]string"), s) == old(mhas(as(o, "map[string]string"), s)) && mget(as(o, "map[string]string"), s) == old(mget(as(o, "map[string]string"), s))
+//@   loop 1 invariant forall k string, s string :: {mget(mget(e.collectionNames.nameMapping, k), s)} k != uKey ==> e.collectionNames.nameMapping[k][s] == old(e.collectionNames.nameMapping[k][s])
+//@   loop 1 invariant forall s string :: {mget(mget(e.collectionNames.nameMapping, uKey), s)} e.collectionNames.nameMapping[uKey][s] == ite(visited(s), "", old(e.collectionNames.nameMapping[uKey][s]))
+//@   loop 1 invariant forall k string :: {mget(e.collectionNames.extraInfos, k)} (k != uKey || !info.ExtraInfo.EnableUserRole) ==> e.collectionNames.extraInfos[k] == old(e.collectionNames.extraInfos[k])
+//@   loop 1 invariant info.ExtraInfo.EnableUserRole ==> !e.collectionNames.extraInfos[uKey].EnableUserRole
+
+// acceptedState: what the duplicate detection has recorded for an accepted request, relative to the state at the entry
+// of Create: the target's user-role flag is the old one or the request's, its name mapping the old one overlaid with
+// the request's, everything of other targets is as it was
+//@ spec acceptedState(e *MetaCDC, req *request.CreateRequest, uKey string, m map[string]string) bool = !(old(e.collectionNames.extraInfos[uKey].EnableUserRole) && req.ExtraInfo.EnableUserRole) && e.collectionNames.extraInfos[uKey].EnableUserRole == (old(e.collectionNames.extraInfos[uKey].EnableUserRole) || req.ExtraInfo.EnableUserRole) && (forall k string :: {mget(e.collectionNames.extraInfos, k)} k != uKey ==> e.collectionNames.extraInfos[k] == old(e.collectionNames.extraInfos[k])) && (forall s string :: {mget(mget(e.collectionNames.nameMapping, uKey), s)} e.collectionNames.nameMapping[uKey][s] == ite(s in m, m[s], old(e.collectionNames.nameMapping[uKey][s]))) && (forall k string, s string :: {mget(mget(e.collectionNames.nameMapping, k), s)} k != uKey ==> e.collectionNames.nameMapping[k][s] == old(e.collectionNames.nameMapping[k][s]))
+// the checkpoint-recording closure of Create (two nested loops): it leaves the bookkeeping as the duplicate detection
+// recorded it, except where it reverts before returning an error
+// (no props line: only ever inlined into Create, where req, uKey and mapCollectionNames are Create's variables)
+//@ func (*MetaCDC).Create$4
+//@   inline
+//@   loop 1 invariant acceptedState(deref(e), req, uKey, mapCollectionNames)
+//@   loop 2 invariant acceptedState(deref(e), req, uKey, mapCollectionNames)
+
+//@ func (*MetaCDC).Create
+//@   props C10 C19
+//@   requires wfBookkeeping(e) && req != nil && e.config != nil && e.metaStoreFactory != nil
+//@   requires [each-target-has-its-own-name-mapping-table] forall k1 string, k2 string :: {mget(e.collectionNames.nameMapping, k1), mget(e.collectionNames.nameMapping, k2)} k1 in e.collectionNames.nameMapping && k2 in e.collectionNames.nameMapping && k1 != k2 ==> e.collectionNames.nameMapping[k1] != e.collectionNames.nameMapping[k2]
+//@   opaque validCreateRequest startInternal getTaskUniqueIDFromReq GetCollectionNamesFromReq getRPCChannelName
+//@   trustpre checkDuplicateCollection.2 checkDuplicateCollection.3 checkDuplicateCollection.4
+//@   private MetaCDC.collectionNames MetaCDC.metaStoreFactory maps(string;model.ExtraInfo) maps(string;map[string]string) maps(string;string) request.CreateRequest.ExtraInfo deleteCalls deletedKey deletedFlagged
+//@   splitposts
+//@   ensures [a-failed-create-takes-no-user-role-flag] err != nil ==> (forall k string :: {mget(e.collectionNames.extraInfos, k)} e.collectionNames.extraInfos[k].EnableUserRole ==> old(e.collectionNames.extraInfos[k].EnableUserRole))
+//@   ensures [a-create-that-failed-before-its-task-was-stored-leaves-every-user-role-flag-as-it-was] err != nil && deleteCalls == old(deleteCalls) ==> (forall k string :: {mget(e.collectionNames.extraInfos, k)} e.collectionNames.extraInfos[k] == old(e.collectionNames.extraInfos[k]))
+//@   ensures [a-failed-create-records-no-name-mapping] err != nil ==> (forall k string, s string :: {mget(mget(e.collectionNames.nameMapping, k), s)} e.collectionNames.nameMapping[k][s] == old(e.collectionNames.nameMapping[k][s]) || e.collectionNames.nameMapping[k][s] == "")
+//@   loop 1 invariant acceptedState(e, req, uKey, mapCollectionNames)
